@@ -263,3 +263,82 @@ Definition chk_path_boxes (tol : Q) (abs_ts : ts) (pts : list pt) (obj abs : box
   | Some o, Some a => box_close tol o obj && box_close tol a abs
   | _, _ => false
   end.
+
+(* ------------------------------------------------------------------ extension round 4: sub-trees (clip paths, masks, patterns, feImage) *)
+(* Every node can own sub-tree roots: Group::clip_path / mask (and their own clip / mask chains), the Pattern::root of a path's
+   fill / stroke paint, feImage roots.  A root is a Group::empty() (transform = abs_transform = identity: clippath.rs, mask.rs,
+   paint_server.rs convert_pattern); its content is converted by the same convert_children / convert_group as the main tree,
+   so inside a sub-tree the same threading applies, started from the identity.  Wrapper groups set by hand (fact
+   BF_TsAssignSites): mask.rs objectBoundingBox subroot and convert_pattern's viewBox group get transform = abs_transform = w
+   BEFORE their children are converted (GK_Plain with node transform w under the identity root).
+   XPushed: paint_server.rs push_pattern_transform(root, w), run AFTER the content was converted: the old root becomes a group
+   with transform = abs_transform = w below a fresh root, its descendants keep the abs_transform they had
+   ("TODO: we should update abs_transform in all descendants as well"). *)
+Inductive xnode :=
+  | XLeaf (subs : list xnode)
+  | XGroup (k : gkind) (node_ts passed_ts : ts) (subs : list xnode) (ch : list xnode)
+  | XPushed (w : ts) (ch : list xnode).
+Inductive bnode :=
+  | BLeaf (abs : ts) (subs : list bnode)
+  | BGroup (t abs : ts) (subs : list bnode) (ch : list bnode).
+
+Fixpoint xthread (pabs : ts) (n : xnode) : bnode :=
+  match n with
+  | XLeaf subs => BLeaf pabs (map (xthread ts_identity) subs)
+  | XGroup k nts pts subs ch =>
+      let '(t, a) := match k with
+                     | GK_Plain => (nts, ts_concat pabs nts)
+                     | GK_ViaUse => (pts, ts_concat (ts_concat pabs pts) nts)
+                     | GK_ClipWrap => (pts, pabs)
+                     end in
+      BGroup t a (map (xthread ts_identity) subs) (map (xthread a) ch)
+  | XPushed w ch => BGroup w w [] (map (xthread ts_identity) ch)
+  end.
+(* a sub-tree root: Group::empty() with the converted content *)
+Definition xroot (subs ch : list xnode) : xnode := XGroup GK_Plain ts_identity ts_identity subs ch.
+
+(* the product invariant on the whole forest: in the main tree relative to pabs, in every sub-tree (at every nesting depth)
+   relative to the identity of its root *)
+Fixpoint xproduct_ok (pabs : ts) (n : bnode) : bool :=
+  match n with
+  | BLeaf a subs => ts_eqb a pabs && forallb (xproduct_ok ts_identity) subs
+  | BGroup t a subs ch => ts_eqb a (ts_concat pabs t) && forallb (xproduct_ok ts_identity) subs && forallb (xproduct_ok a) ch
+  end.
+(* KNOWN classes: use_transform_twice as before; pattern_pushed_transform: a push_pattern_transform wrapper anywhere in the forest *)
+Fixpoint xhas_use_ts (n : xnode) : bool :=
+  match n with
+  | XLeaf subs => existsb xhas_use_ts subs
+  | XGroup k nts pts subs ch =>
+      match k with
+      | GK_Plain => false
+      | GK_ViaUse => negb (ts_eqb nts ts_identity)
+      | GK_ClipWrap => negb (ts_eqb pts ts_identity)
+      end || existsb xhas_use_ts subs || existsb xhas_use_ts ch
+  | XPushed _ ch => existsb xhas_use_ts ch
+  end.
+Fixpoint xhas_pushed (n : xnode) : bool :=
+  match n with
+  | XLeaf subs => existsb xhas_pushed subs
+  | XGroup _ _ _ subs ch => existsb xhas_pushed subs || existsb xhas_pushed ch
+  | XPushed _ _ => true
+  end.
+(* the main tree of a forest: sub-trees dropped (what `thread` models) *)
+Fixpoint xmain (n : xnode) : tnode :=
+  match n with
+  | XLeaf _ => TLeaf
+  | XGroup k nts pts _ ch => TGroup k nts pts (map xmain ch)
+  | XPushed w ch => TGroup GK_Plain w ts_identity (map xmain ch)
+  end.
+(* all nodes of the threaded forest with the abs_transform of their parent (identity for roots), flattened: what the
+   `bbox` correspondence enumerates from a dump *)
+Fixpoint bflat (pabs : ts) (n : bnode) : list (ts * bnode) :=
+  (pabs, n) ::
+  match n with
+  | BLeaf _ subs => flat_map (bflat ts_identity) subs
+  | BGroup _ a subs ch => flat_map (bflat ts_identity) subs ++ flat_map (bflat a) ch
+  end.
+Definition bnode_local_ok (pabs : ts) (n : bnode) : bool :=
+  match n with
+  | BLeaf a _ => ts_eqb a pabs
+  | BGroup t a _ _ => ts_eqb a (ts_concat pabs t)
+  end.
